@@ -2,6 +2,7 @@
 package c07
 
 import (
+	"context"
 	"fmt"
 	"strings"
 	"sync"
@@ -11,6 +12,8 @@ import (
 
 	"pgregory.net/rapid"
 
+	"tunnox-core/internal/core/storage/hybrid"
+	"tunnox-core/internal/core/storage/memory"
 	"tunnox-core/internal/packet"
 	"tunnox-core/internal/protocol/session"
 	"tunnox-core/internal/security"
@@ -52,10 +55,17 @@ type world struct {
 	secrets [nClients]string
 	seq     int
 	cfg     Case
+	outage  *vkit.OutageStore
 }
 
 func newWorld(c Case) (*world, error) {
+	// the storage the server builds (hybrid facade over memory), wrapped so that a state-store outage
+	// can be switched on for single actions
+	hc := hybrid.DefaultConfig()
+	hc.EnablePersistent = false
+	outage := vkit.NewOutageStore(hybrid.NewWithSharedCache(context.Background(), memory.New(context.Background()), nil, nil, hc))
 	srv, err := miniserver.New(miniserver.Options{
+		Storage:    outage,
 		Session:    &session.SessionConfig{HeartbeatTimeout: time.Hour, CleanupInterval: time.Hour, MaxConnections: c.MaxConns, MaxControlConnections: c.MaxControl},
 		BruteForce: &security.BruteForceConfig{MaxFailures: 100000, TimeWindow: time.Hour, BanDuration: time.Hour, PermanentBanAt: 1000000, CleanupInterval: time.Hour},
 		IPRate:     &security.RateLimitConfig{Rate: 100000, Burst: 100000, TTL: time.Hour},
@@ -63,7 +73,7 @@ func newWorld(c Case) (*world, error) {
 	if err != nil {
 		return nil, err
 	}
-	w := &world{srv: srv, cfg: c}
+	w := &world{srv: srv, cfg: c, outage: outage}
 	for i := 0; i < nClients; i++ {
 		cl, err := srv.Cloud.GenerateAnonymousCredentials()
 		if err != nil {
@@ -206,6 +216,20 @@ func (w *world) step(a Action) (*fail, string) {
 		w.srv.SM.GetClientRegistry().CleanupStale(5*time.Millisecond, func(connID string, clientID int64, authenticated bool) error {
 			return w.srv.SM.CloseConnection(connID)
 		})
+	case "close_server_outage", "close_peer_outage":
+		// the connection ends while the state store is unreachable (every storage call fails)
+		s := pick()
+		if s == nil {
+			return nil, tag + ":skipped"
+		}
+		w.outage.Down.Store(true)
+		if a.Kind == "close_server_outage" {
+			w.srv.SM.CloseConnection(s.cl.ConnID)
+		} else {
+			s.cl.Near.Close()
+		}
+		w.adapterRole()
+		w.outage.Down.Store(false)
 	case "close_server":
 		s := pick()
 		if s == nil {
@@ -372,7 +396,7 @@ func genCase(t *rapid.T) Case {
 	n := rapid.IntRange(2, vkit.Pick(22, 40)).Draw(t, "n")
 	c.Actions = append(c.Actions, Action{Kind: "accept"}, Action{Kind: "accept"})
 	for i := 0; i < n; i++ {
-		k := rapid.SampledFrom([]string{"accept", "accept", "login", "login", "login", "login", "login_tunnel", "phase1", "kick", "heartbeat", "sweep", "close_server", "close_peer"}).Draw(t, "kind")
+		k := rapid.SampledFrom([]string{"accept", "accept", "login", "login", "login", "login", "login_tunnel", "phase1", "kick", "heartbeat", "sweep", "close_server", "close_peer", "close_server_outage", "close_peer_outage"}).Draw(t, "kind")
 		a := Action{Kind: k, Conn: rapid.IntRange(0, 7).Draw(t, "conn"), Client: rapid.IntRange(0, nClients-1).Draw(t, "client")}
 		if k == "sweep" || k == "kick" {
 			a.Mask = rapid.IntRange(0, 31).Draw(t, "mask")
